@@ -644,6 +644,40 @@ Lemma rounds_ping_each : forall s r, ka_state s -> round_ok s r ->
   decide s (lastRecv s + Z.max (kaInterval s) (rd_pto r * 3 / 2)) (rd_pto r) = DKeepAlive.
 Proof. intros s r K H. destruct (round_preserves s r K H) as [D _]. exact D. Qed.
 
+(** ** 4b. Any number of parked callers per call *)
+
+Lemma woken_from_all : forall ps served,
+  NoDup (filter (fun c => match close_wakeup c with WakeOne => true | WakeAll => false end) ps) ->
+  (forall p, In p ps -> close_wakeup p = WakeOne -> ~ In p served) ->
+  woken_from close_wakeup served ps = ps.
+Proof.
+  induction ps as [|p r IH]; intros served N D; [reflexivity|].
+  cbn [woken_from]. cbn [filter] in N. destruct (close_wakeup p) eqn:W.
+  - f_equal. apply IH; [exact N|]. intros q Hq. apply D. right. exact Hq.
+  - inversion N as [|? ? Hnotin N']; subst.
+    destruct (in_dec call_eq_dec p served) as [I|I].
+    + exfalso. apply (D p (or_introl eq_refl) W). exact I.
+    + f_equal. apply IH; [exact N'|]. intros q Hq Wq [E|I'].
+      * subst q. apply Hnotin. apply filter_In. split; [exact Hq|]. rewrite W. reflexivity.
+      * apply (D q (or_intror Hq) Wq). exact I'.
+Qed.
+
+(** every parked goroutine is woken, however many are parked in the same call *)
+Lemma all_parked_woken : forall ps, one_per_stream ps -> woken ps = ps.
+Proof. intros ps H. apply woken_from_all; [exact H|]. intros p _ _ []. Qed.
+
+(** ... and what a single token would do instead: of two goroutines parked in the same call the second one
+    stays parked (this is why the maps and the datagram queue close a channel) *)
+Lemma one_token_leaves_parked : forall wk c, wk c = WakeOne -> woken_from wk [] [c; c] = [c].
+Proof.
+  intros wk c H. cbn [woken_from]. rewrite H. destruct (in_dec call_eq_dec c []) as [[]|_].
+  destruct (in_dec call_eq_dec c [c]) as [_|N]; [reflexivity|]. exfalso. apply N. left. reflexivity.
+Qed.
+
+Lemma close_wakeup_accept_open_datagram : forall c,
+  match c with CRead _ | CWrite _ => True | _ => close_wakeup c = WakeAll end.
+Proof. destruct c; exact I || reflexivity. Qed.
+
 (** ** Statements as used by Props/C17.v *)
 
 Definition call_in_range (a : api) (c : call) : Prop :=
@@ -662,6 +696,21 @@ Lemma single_cause : forall s l1 ce l2,
 Proof.
   intros s l1 ce l2 H. split; [apply first_request_wins; exact H|].
   intros a c Hf [Hr Hw]. cbv zeta. split.
+  - apply fanout_never_parks; assumption.
+  - apply fanout_call; assumption.
+Qed.
+
+(** the parked goroutines: a list [ps] of calls in which the same call may occur any number of times
+    (at most one per stream direction). All of them are woken, and each returns the cause (or its object's
+    own terminal result / a datagram queued before). *)
+Lemma single_cause_parked : forall a e ps, fresh_streams a -> Forall (call_in_range a) ps -> one_per_stream ps ->
+  woken ps = ps /\
+  Forall (fun c => let r := api_call (fanout a e) c in
+                   r <> RBlock /\
+                   (r = RErr e \/ own_result r \/ (c = CReceiveDatagram /\ a_rcvQueued a = true /\ r = ROk))) ps.
+Proof.
+  intros a e ps Hf Hr H1. split; [apply all_parked_woken; exact H1|].
+  rewrite Forall_forall in *. intros c Hc. destruct (Hr c Hc) as [R W]. cbv zeta. split.
   - apply fanout_never_parks; assumption.
   - apply fanout_call; assumption.
 Qed.
